@@ -166,7 +166,7 @@ public:
 
   void stackControl(const Controller * stmt, void * data)
   {
-    _controlstack.stack({stmt, data});
+    _controlstack.stack({stmt, data, execLevel()});
   }
 
   /**
@@ -397,6 +397,8 @@ private:
     const Controller * stmt;
     /* the opaque data held by the statement */
     void * data;
+    /* the execution level at which the statement took control */
+    size_t level;
   };
 
   Stack<Control> _controlstack;
